@@ -128,7 +128,8 @@ pub fn snapshot(case_root: &[u8], dir: &Path, out: &mut Vec<String>) {
     }
 }
 
-fn fmt_set(case_root: &[u8], set: std::collections::HashSet<async_std::path::PathBuf>) -> String {
+// accepts any collection of paths (the code returns a HashSet; a duplicate in a non-set collection is printed twice)
+fn fmt_set(case_root: &[u8], set: impl IntoIterator<Item = async_std::path::PathBuf>) -> String {
     let mut v: Vec<Vec<u8>> = set
         .into_iter()
         .map(|p| {
